@@ -31,7 +31,7 @@ Definition tmle_ic_rd (psi : Q) (r : row) : option Q :=
   Some (if obs r then (h1 r + h0 r) * (yval r - qs r) + (q1 r - q0 r) - psi else (q1 r - q0 r) - psi).
 Definition tmle_ic_rr (mq1 mq0 : Q) (r : row) : option Q :=
   Some (if obs r then 1 / mq1 * (h1 r * (yval r - qs r) + q1 r - mq1) - 1 / mq0 * (- h0 r * (yval r - qs r) + q0 r - mq0)
-        else (q1 r - mq1) + q0 r - mq0).
+        else (q1 r - mq1) / mq1 - (q0 r - mq0) / mq0).
 Definition tmle_ic_or (mq1 mq0 : Q) (r : row) : option Q :=
   Some (if obs r then 1 / (mq1 * (1 - mq1)) * (h1 r * (yval r - qs r) + q1 r) - 1 / (mq0 * (1 - mq0)) * (- h0 r * (yval r - qs r) + q0 r)
         else 1 / (mq1 * (1 - mq1)) * q1 r - 1 / (mq0 * (1 - mq0)) * q0 r).
